@@ -145,6 +145,37 @@ def feasible(S, p, enum_params):
     return True
 
 
+def mode_from_eq(F, p, param, enum_path="hash::HexStringPrefix"):
+    """Variant of the fieldless-enum parameter `param` that path p is specialised to by derived `==`/`!=` tests against constant
+    variants (None if p does not decide it)."""
+    names = None
+    for a in F.d["adts"]:
+        if a["path"] == enum_path:
+            names = [v["name"] for v in a["variants"]]
+    if not names:
+        return None
+    possible = set(names)
+    for (bb, d, taken, vals) in p.conds:
+        e = n(d)
+        if e[0] == "call" and e[1].endswith(("PartialEq>::eq", "PartialEq>::ne")) and len(e[2]) == 2:
+            a, b = e[2]
+            a = a[1] if a[0] == "ref" else a
+            b = b[1] if b[0] == "ref" else b
+            for x, y in ((a, b), (b, a)):
+                if x == param and y[0] == "agg" and y[1].startswith("adt:" + enum_path) and not y[2]:
+                    v = y[1].rsplit("::", 1)[-1]
+                    truth = (taken == "otherwise") if vals == [0] else bool(taken)
+                    if e[1].endswith("::ne"):
+                        truth = not truth
+                    possible &= {v} if truth else (set(names) - {v})
+    if not possible:
+        return INFEASIBLE  # the path tests the parameter contradictorily
+    return sorted(possible)[0] if len(possible) == 1 else None
+
+
+INFEASIBLE = "<infeasible>"
+
+
 # ---------------------------------------------------------------- writers
 
 
@@ -183,6 +214,12 @@ def text_writer(F):
             m = match(("bin", "Lt", ("call", "core::slice::<impl [T]>::len", (P(2),)), V("k")), e)
             if m:
                 gate = (m["k"], (taken == "otherwise") if vals == [0] else bool(taken))
+        if mode is None:
+            mode = mode_from_eq(F, p, P(3))
+        elif mode_from_eq(F, p, P(3)) not in (None, mode):
+            continue  # `match` arm and `==` test disagree: infeasible
+        if mode == INFEASIBLE:
+            continue
         ret = n(p.ret)
         if ret[0] == "agg" and ret[1].endswith("Result::Err"):
             out["errs"][mode] = {"gate": gate, "ret": ret, "writes": len(p.stores) + len([c for c in p.calls if "encode" in c[1] or "copy_from_slice" in c[1]])}
@@ -224,6 +261,11 @@ def text_writer(F):
             elif find_all(pe, lambda x: x == P(2)):
                 unknown.append("store " + sym.fmt(pe))
         out["modes"][mode] = {"gate": gate, "ret": ret, "writes": writes, "unknown": unknown, "path": p}
+    # an error return taken before the prefix is examined applies to every prefix mode
+    if None in out["errs"] and out["modes"] and None not in out["modes"]:
+        shared = out["errs"].pop(None)
+        for m_ in out["modes"]:
+            out["errs"].setdefault(m_, shared)
     return out, None
 
 
